@@ -19,10 +19,10 @@ Statement-level semantics of a `List BStmt`, written without any reference to th
   when it is a port and `z` otherwise.
   Relational: nothing is said about cycles; a description with a combinational cycle may have none or several models.
 * `benchOKB` — the description builds (no exception in `bench.parse`, inside the domain of the circuit model): no two gate
-  statements define the same name, no kind is the literal `__fork__`.  `benchClosedB` — additionally every operand is a port or
-  defined by a gate statement and no kind lower-cases to `__fork__`: a coverage predicate of the correspondence run (closed
-  descriptions are the ones for which the scheduler's domain hypotheses `forksOKB` / `linesDrivenB` of `C11.bench_end_to_end` can
-  hold for an order over all nodes); no theorem depends on it.
+  statements define the same name, no kind is the literal `__fork__` (`C11.bench_ok_is_no_error`: exactly when the parser model
+  does not set `err`).  `benchClosedB` — additionally every operand is a port or defined by a gate statement and no kind
+  lower-cases to `__fork__`: then the scheduler's domain hypothesis `forksOKB` holds for every order, and — kinds known to the
+  prefix table, order over all nodes — every line is scheduled (`C11.bench_sched_hyps`, `C11.bench_end_to_end_closed`).
 * `benchEval` — an evaluator by passes (for the driver), checked by `benchModelB` on every answer: `benchModelB … = true` implies
   `BenchModel` for the environment of the table (theorem `benchModelB_sound`). -/
 namespace KV.Netlist
